@@ -79,3 +79,17 @@ def guard(obj, held, violations, what, count):
 
 def is_plain_lock(x):
     return isinstance(x, (type(threading.Lock()), type(threading.RLock())))
+
+
+def attach_to_sliding_semaphore(sem):
+    """Lockset monitor for a SlidingWindowSemaphore: its counters and per-tag tables may only be written by the thread holding the
+    semaphore's lock.  Engages only where the lock is found as ``_lock`` (a plain lock) with the condition ``_condition`` built on
+    it; returns the monitor's state ({'violations': [...], 'count': [n]}) or None."""
+    if not is_plain_lock(getattr(sem, '_lock', None)) or not isinstance(getattr(sem, '_condition', None), threading.Condition):
+        return None
+    ol = OwnerLock()
+    st = {'violations': [], 'count': [0]}
+    sem._lock = ol
+    sem._condition = threading.Condition(ol)
+    guard(sem, ol.held_by_me, st['violations'], 'semaphore', st['count'])
+    return st
